@@ -5,5 +5,5 @@ Extraction Language OCaml.
 Extraction "model_pathmodel.ml"
   N.add N.mul N.div N.modulo N.sub Z.add Z.mul Z.opp Z.of_N Z.abs_N Z.sub Z.ltb
   PathModel.path_of PathModel.parse_path PathModel.find_path PathModel.new_path
-  PathModel.swf PathModel.dwf PathModel.quotes_ok PathModel.spine PathModel.node_at
-  PathModel.E_VALID PathModel.E_UNSUP PathModelP.ex_S_c PathModelP.ex_t_c.
+  PathModel.change_term PathModel.is_dflt PathModel.swf PathModel.dwf PathModel.quotes_ok PathModel.spine PathModel.node_at
+  PathModel.E_VALID PathModel.E_UNSUP PathModel.E_EXIST PathModelP.ex_S_c PathModelP.ex_t_c.
